@@ -1,7 +1,7 @@
 """rs2coq: a translator from a small, pure subset of Rust to Gallina, run on every check.
 
 It regenerates coq/theories/Gen.v from the CURRENT sources of the repository under test for the functions listed in
-FUNCTIONS below (integer arithmetic and decision tables of src/ext.rs and src/body.rs). proofs/Gen_equiv.v proves, for
+FUNCTIONS below (integer arithmetic and decision tables of src/ext.rs and src/body.rs). proofs/Gen_equiv_{ext,body}.v prove, for
 ALL arguments, that each generated function equals the corresponding function of the hand-written model; the property
 files that depend on those functions re-export these equalities, so that a change of the Rust function which is not
 an equivalent rewrite breaks a proof obligation of the property (DESIGN.md section 3.5).
@@ -9,10 +9,11 @@ an equivalent rewrite breaks a proof obligation of the property (DESIGN.md secti
 Subset translated (anything else raises Unsupported and is reported as `translator_failed` for that function):
   fn f(&self | x: usize | v: Version ...) -> bool | usize | Result<(), Error> { stmts; expr }
   stmts:   let [mut] x = e;   x = e;   x += e;   x -= e;   x *= e;   while c { stmts }
-           if c { return Err(Error::V[(..)]); }
+           if c { return Err(Error::V[(..)]); }   let x = match e { P => e1, .. , _ => return Err(..) };
   expr:    literals, identifiers, SCREAMING constants (resolved from `const NAME: usize = expr;` of the same file),
            + - * / %   == != < <= > >=   && || !   ( ) , if c { e } else { e } , a.min(b) a.max(b) a.saturating_sub(b),
-           self / *self, self.method() calls of other translated functions, paths Method::X, Version::HTTP_xx,
+           matches!(e, P | P ..), match e { P | P => e, .., _ => e } (patterns: path constants, integer literals, _),
+           self / *self, self.as_u16(), self.method() calls of other translated functions, paths Method::X, Version::HTTP_xx,
            StatusCode::NAME, Ok(()).
 Semantics: usize / u64 become N; `-` is N's truncated subtraction (= saturating_sub; a plain `-` that could underflow is a
 panic site in a debug build: the hand-written model carries those as explicit Panic branches, the translation does not);
@@ -46,7 +47,7 @@ class Unsupported(Exception):
     pass
 
 
-TOKEN = re.compile(r"\s*(?:(//[^\n]*)|(\d[\d_]*)|([A-Za-z_][A-Za-z0-9_]*)|(::|==|!=|<=|>=|&&|\|\||\+=|-=|\*=|->|[-+*/%<>!=(){};,.&:]))")
+TOKEN = re.compile(r"\s*(?:(//[^\n]*)|(\d[\d_]*)|([A-Za-z_][A-Za-z0-9_]*)|(::|==|!=|<=|>=|=>|&&|\|\||\+=|-=|\*=|->|[-+*/%<>!=(){};,.&:|]))")
 
 
 def tokenize(src):
@@ -190,6 +191,28 @@ class Parser(object):
             b = self.block_expr()
             self.expect("}")
             return ("(if %s then %s else %s)" % (c[0], a[0], b[0]), a[1])
+        if tok == ("id", "matches") and self.peek() == ("op", "!"):
+            self.next()
+            self.expect("(")
+            scrut = self.expr()
+            self.expect(",")
+            alts = [self.pattern()]
+            while self.peek() == ("op", "|"):
+                self.next()
+                alts.append(self.pattern())
+            if self.peek() == ("op", ","):
+                self.next()
+            self.expect(")")
+            tests = [self.binop("==", scrut, a)[0] for a in alts]
+            e = tests[0]
+            for t in tests[1:]:
+                e = "(%s || %s)" % (e, t)
+            return (e, "bool")
+        if tok == ("id", "match"):
+            arms, scrut = self.match_arms()
+            if any(r for _, _, r in arms):
+                raise Unsupported("`return` inside a match that is not the right-hand side of a let")
+            return self.match_chain(scrut, arms, lambda b: b)
         if tok[0] == "id":
             name = tok[1]
             if self.peek() == ("op", "::"):
@@ -224,6 +247,62 @@ class Parser(object):
             return (name, self.vars.get(name, "N"))
         raise Unsupported("unexpected token %r" % (tok,))
 
+    def pattern(self):
+        """a pattern of matches!/match: a path constant, an integer literal or `_` (returns None)."""
+        while self.peek() in (("op", "&"), ("op", "*")):
+            self.next()
+        if self.peek() == ("id", "_"):
+            self.next()
+            return None
+        return self.atom()
+
+    def match_arms(self):
+        """after `match`: parses `scrutinee { pats => body, ... }`; returns ([(alts, body, is_return)], scrutinee)."""
+        scrut = self.expr()
+        self.expect("{")
+        arms = []
+        while self.peek() != ("op", "}"):
+            alts = [self.pattern()]
+            while self.peek() == ("op", "|"):
+                self.next()
+                alts.append(self.pattern())
+            self.expect("=>")
+            is_ret = False
+            if self.peek() == ("id", "return"):
+                self.next()
+                is_ret = True
+            if self.peek() == ("op", "{"):
+                self.next()
+                body = self.block_expr()
+                self.expect("}")
+            else:
+                body = self.expr()
+            if self.peek() == ("op", ","):
+                self.next()
+            arms.append((alts, body, is_ret))
+        self.expect("}")
+        return arms, scrut
+
+    def match_chain(self, scrut, arms, k):
+        """if-chain for the arms, in order; k maps a non-returning arm's body (expr, type) to the continuation's (expr, type)."""
+        out = None
+        ty = "?"
+        for alts, body, is_ret in reversed(arms):
+            val = body if is_ret else k(body)
+            if not is_ret:
+                ty = val[1]
+            if any(a is None for a in alts):
+                out = val[0]
+                continue
+            if out is None:
+                raise Unsupported("match without a wildcard arm")
+            tests = [self.binop("==", scrut, a)[0] for a in alts]
+            cond = tests[0]
+            for t in tests[1:]:
+                cond = "(%s || %s)" % (cond, t)
+            out = "(if %s then %s else %s)" % (cond, val[0], out)
+        return (out, ty)
+
     def skip_parens(self):
         depth = 0
         while True:
@@ -252,7 +331,7 @@ class Parser(object):
                 e = ("(N.%s %s %s)" % (name, e[0], args[0][0]), "N")
             elif name == "saturating_sub" and len(args) == 1:
                 e = ("(N.sub %s %s)" % (e[0], args[0][0]), "N")
-            elif name == "clone" and not args:
+            elif name in ("clone", "as_u16") and not args:
                 pass
             elif name in self.known and not args:
                 e = ("(%s %s)" % (self.known[name][0], e[0]), self.known[name][1])
@@ -281,6 +360,15 @@ class Parser(object):
                 self.next()
                 self.next()
             self.expect("=")
+            if self.peek() == ("id", "match"):
+                self.next()
+                arms, scrut = self.match_arms()
+                self.expect(";")
+                tys = [b[1] for _, b, r in arms if not r]
+                self.vars[name] = tys[0] if tys else "N"
+                rest = self.stmts_then(k)
+                # arms that `return` leave the function; the others bind the variable and go on (continuation duplicated)
+                return self.match_chain(scrut, arms, lambda b: ("(let %s := %s in\n  %s)" % (name, b[0], rest[0]), rest[1]))
             e = self.expr()
             self.expect(";")
             self.vars[name] = e[1]
@@ -383,7 +471,7 @@ def translate_fn(text, rust_name, coq_name, self_ty, consts, known):
 
 
 PREAMBLE = """(* GENERATED by tools/rs2coq.py from the repository sources on every run -- do not edit.
-   Each definition is the translation of the Rust function named above it; proofs/Gen_equiv.v proves it equal to the
+   Each definition is the translation of the Rust function named above it; proofs/Gen_equiv_ext.v and proofs/Gen_equiv_body.v prove it equal to the
    hand-written model's function for all arguments. *)
 From Coq Require Import NArith Bool List.
 From Hoot Require Import Base Body Url Request.
